@@ -1036,7 +1036,7 @@ def run(repo: Repo, rep, tier: str):
 
 CLAIM = {
     "engine": "indicators+normal-forms",
-    "technique": "expression DAGs of indicator outputs (from the dependence interpreter) converted to exact rational normal forms and compared with independently written textbook definitions; structural-hash comparison for the ma() selector",
+    "technique": "expression DAGs of indicator outputs (from the dependence interpreter) converted to exact rational normal forms and compared with independently written textbook definitions; structural-hash comparison for the ma() selector; interval abstract interpretation + order prover + dimensional analysis of the same DAGs for ranges, orderings and homogeneity",
     "text": "Static. The expression DAG of every output element is extracted by interpreting /repo's indicator source on symbolic candles "
             "and converted to an exact rational function (comparisons / max / min / abs / sqrt as canonical opaque atoms). Trailing-window "
             "indicators (sma, wma, var, stddev, bollinger bands, donchian, willr, mom, roc, mfi, obv step, typ/med/avg/wcl price, trange, "
@@ -1044,7 +1044,9 @@ CLAIM = {
             "recurrence step and rsi Wilder's definition; ma() must return for each of its ~30 matypes exactly the series the selected "
             "moving average returns, also as a single value on an input longer than the warm-up window. Wilder's directional system (dm, di) "
             "is compared with its definition by evaluating the extracted expressions on six valuations (values inside [0, 100]); choosing a "
-            "recursive matype must not turn a series into NaN. Identities hold for all input values at the analysed length/period. Not decided: ranges, orderings, "
-            "homogeneity, seed-decay agreement, indicators outside the table.",
+            "recursive matype must not turn a series into NaN. Identities hold for all input values at the analysed length/period. Ranges, non-negativity, band order and channel "
+            "enclosure (R6): interval / order analysis of the extracted expressions, universal over valid candle valuations, with witness refutation of what is not provable; "
+            "price-homogeneity of every average (R7): dimensional analysis of the extracted expression. Not decided: seed-decay agreement, definitions of indicators outside "
+            "the table, range obligations that are neither provable nor refuted.",
     "note": "Trusted: numpy model of the interpreter; reference definitions in props/c15.py; fixed small length and periods.",
 }
